@@ -58,6 +58,11 @@ def check(ck):
                 else:
                     fresh = isinstance(got, shape.Sym) and got.label.startswith(("str(fresh:uuid.", "repr(fresh:uuid.", "hex(fresh:uuid.", "urn(fresh:uuid.", "int(fresh:uuid.")) or \
                         (isinstance(got, shape.Sym) and got.label.startswith("fresh:uuid."))
+                    if not fresh and isinstance(got, shape.Sym) and got.label.startswith("opaque:") and \
+                            any(isinstance(x_, ast.Call) and dump(x_.func) in ("uuid.uuid4", "uuid.uuid1") for f_ in prog.module_funcs("jsonrpc")
+                                if f_.cls is not None and f_.cls.name == "Payload" for x_ in ast.walk(f_.node)):
+                        # a uuid is drawn, and the id is some rendering of it the evaluator does not follow (an encoding of its bytes)
+                        raise AnalysisError("the generated id `%s` is computed from a uuid through operations that are not modelled" % got.label[:60])
                     ck.require(fresh, "C14.2", where, "generated per call by uuid",
                                "for an absent id the emitted id is %r, not a value generated by a uuid call in this "
                                "invocation (unique per call)" % (got,), q.loc(fr, fr.node))
@@ -110,7 +115,7 @@ def check(ck):
                         got = "raise " + out[1] if out[0] == "raise" else "emit"
                         if got in ("raise TypeError", "raise ValueError") and want in ("raise TypeError", "raise ValueError"):
                             got = want      # the property asks for "TypeError or ValueError", whichever
-                        if resp and mv.v is not None and got in ("raise TypeError", "raise ValueError", "emit") and want == "emit":
+                        if resp and mv.v is not None and got in ("raise TypeError", "raise ValueError", "emit"):
                             got = want      # a response that also names a method: a combination the property does not list - emitted or rejected
                         desc = "method=%s params=%s is_response=%s rpcid=%s" % (ml, pl, resp, rid[0])
                         if got != want:
